@@ -149,7 +149,11 @@ Proof. vm_compute. split; reflexivity. Qed.
    Part 2 (Model/Args.v): the caller's argument objects.  A world holds the caller's Feature objects (hF) and Options
    objects (hO) by address, the links set object, and the GlobalFilter (filters, collection); plan_call is
    mlodaAPI.prepare (= the planning half of run_all) as a transformer of that world, for the code as it is now: the
-   Engine plans on private copies of the links set and of the GlobalFilter (/repo 68bd25e, bacc886). *)
+   Engine plans on private copies of the links set and of the GlobalFilter (/repo 68bd25e, bacc886).
+   Features, filter features and feature groups carry domains; a filter object is (filter_feature.name, .options, type,
+   parameter, filter_feature.domain, filter_feature.compute_frameworks).  plan_call = plan_call_v as_implemented; the
+   other variants (Engine without the deepcopy of the GlobalFilter / domain() applied to the filter object itself) are
+   used by the theorems of the last section only. *)
 Require Import MV.Model.Args MV.Proofs.ArgsP.
 
 (* copy_features=True (the default): whatever the call does -- succeed, fail half way, be rejected -- the caller's
@@ -177,8 +181,8 @@ Proof. exact filter_object_untouched_l. Qed.
 Print Assumptions filter_object_untouched.
 
 (* What a call writes into caller-owned objects at all, for both values of copy_features (Inv, f_evolves, o_evolves in
-   Proofs/ArgsP.v): only Feature and Options objects; the heaps keep their size; of a Feature, name / options reference /
-   uuid / link are never written, initial_requested_data is only raised, compute_frameworks only set when unset, data_type
+   Proofs/ArgsP.v): only Feature and Options objects; the heaps keep their size; of a Feature, name / domain / options
+   reference / uuid / link are never written, initial_requested_data is only raised, compute_frameworks only set when unset, data_type
    only set when unset; of an Options object the context is never written and the group is only extended by the keys
    "ApiInputData" / "strict_type_enforcement"; an object is written only if copy_features=False and it is a requested
    feature, resp. the Options object of a requested feature. *)
@@ -241,7 +245,7 @@ Theorem feature_reuse_nocopy_refuted :
   let c1 := cl [1] false false false (Some api1) in let c2 := cl [1] false false false (Some api2) in
   let w1 := fst (plan_call exu 8 (exw []) c1) in
   nth_error (hF w1) 1 = Some {| f_name := "a"; f_opt := 1; f_cfw := Some [0]; f_flag := true; f_dtype := None; f_uuid := 0;
-                                f_link := None |} /\
+                                f_link := None; f_dom := None |} /\
   nth_error (hO w1) 1 = Some {| og := [("x"%string, VZ 2); (api_key, VCols api1)]; oc := [] |} /\
   snd (plan_call exu 8 w1 c2) = Failed EAddConflict /\ is_accepted (snd (plan_call exu 8 (exw []) c2)) = true /\
   is_accepted (snd (plan_call exu 8 (fst (plan_call exu 8 (exw []) (cl [1] true false false (Some api1))))
@@ -270,3 +274,118 @@ Example C07_args_example :
   after world call outcome (plan_call exu 8) (exw [Linner]) cs = exw [Linner] /\
   is_accepted (snd (plan_call exu 8 (after world call outcome (plan_call exu 8) (exw [Linner]) cs) c)) = true.
 Proof. exact args_reuse_example_l. Qed.
+
+(* ==========================================================================================================
+   Part 3: the caller's FILTER objects, with domains.  GlobalFilter.domain() and GlobalFilter.compute_framework() assign
+   filter_feature.domain / .compute_frameworks of the filter they are given; unify_options writes its options.  As
+   implemented they are given a deep copy of a deep copy. *)
+
+(* While a call is planned (identity_matched_filters per processed feature: deepcopy, unify_options, criteria, domain with
+   its assignment, compute_framework with its assignment), the Engine's own filter objects are never written: when
+   planning ends they are what the caller passed -- whether or not the Engine deep-copied the GlobalFilter. *)
+Theorem engine_filters_invariant : forall vr u fuel w c, v_domain_on_copy vr = true ->
+  call_engine_filters_v vr u fuel w c = w_filters w.
+Proof. exact engine_filters_invariant_l. Qed.
+Print Assumptions engine_filters_invariant.
+
+(* frame, per call: as soon as ONE of the two copies is made, every modelled attribute of every filter object of the
+   caller (name, options, type, parameter, domain, compute_frameworks) is what it was, however the call ends *)
+Theorem filter_objects_frame : forall vr u fuel w c, v_engine_deepcopy vr = true \/ v_domain_on_copy vr = true ->
+  w_filters (fst (plan_call_v vr u fuel w c)) = w_filters w.
+Proof. exact filter_objects_frame_v_l. Qed.
+Print Assumptions filter_objects_frame.
+
+(* frame, per history: any sequence of calls sharing the objects, any copy_features, any domains, any outcomes *)
+Theorem filter_objects_frame_history : forall u fuel cs w,
+  w_links (after world call outcome (plan_call u fuel) w cs) = w_links w /\
+  w_filters (after world call outcome (plan_call u fuel) w cs) = w_filters w /\
+  w_coll (after world call outcome (plan_call u fuel) w cs) = w_coll w.
+Proof. exact containers_frame_history_l. Qed.
+Print Assumptions filter_objects_frame_history.
+
+Theorem filter_objects_frame_history_any_variant : forall vr u fuel,
+  v_engine_deepcopy vr = true \/ v_domain_on_copy vr = true ->
+  forall cs w, w_filters (after world call outcome (plan_call_v vr u fuel) w cs) = w_filters w.
+Proof. exact filter_objects_frame_history_v_l. Qed.
+Print Assumptions filter_objects_frame_history_any_variant.
+
+(* the matched filters of a call (every (group, feature name) -> enriched filter copy that _add_filter_feature records)
+   read the Feature / Options objects and the filter objects only *)
+Theorem matched_filters_read : forall vr u fuel w1 w2 c, hF w1 = hF w2 -> hO w1 = hO w2 -> w_filters w1 = w_filters w2 ->
+  call_matched_v vr u fuel w1 c = call_matched_v vr u fuel w2 c.
+Proof. exact matched_reads_l. Qed.
+Print Assumptions matched_filters_read.
+
+(* hence: after ANY sequence of calls sharing the argument objects, a call's matched-filter set is that of the same call
+   given fresh equal arguments (induction over the call list) *)
+Theorem matched_filters_reuse : forall u fuel w0 cs c, forallb c_copy cs = true ->
+  call_matched u fuel (after world call outcome (plan_call u fuel) w0 cs) c = call_matched u fuel w0 c.
+Proof. exact matched_filters_reuse_l. Qed.
+Print Assumptions matched_filters_reuse.
+
+(* ... and when copy_features=False calls in between have written the requested features, the FILTERS the call is matched
+   against are still the pristine ones *)
+Theorem matched_filters_reuse_any_history : forall u fuel w0 cs c,
+  call_matched u fuel (after world call outcome (plan_call u fuel) w0 cs) c
+  = call_matched u fuel {| hF := hF (after world call outcome (plan_call u fuel) w0 cs);
+                           hO := hO (after world call outcome (plan_call u fuel) w0 cs);
+                           w_links := w_links w0; w_filters := w_filters w0; w_coll := w_coll w0 |} c.
+Proof. exact matched_filters_reuse_any_l. Qed.
+Print Assumptions matched_filters_reuse_any_history.
+
+(* The hypothesis of filter_objects_frame is needed.  Variant `regression` (the Engine keeps the caller's SingleFilter
+   objects in new containers AND identity_matched_filters applies domain() to the filter object before copying it), two
+   calls sharing one GlobalFilter with the domain-less filter v >= 20: [v@sales] writes domain 1 into the caller's filter;
+   [v@finance] then matches nothing and plans an unfiltered step, whereas with fresh equal objects it matches the filter.
+   As implemented, and with either change alone, the caller's world is untouched and both calls match alike. *)
+Theorem domain_on_shared_original_refuted :
+  let c1 := cl [0] true false true None in let c2 := cl [1] true false true None in
+  let w1 := fst (plan_call_v regression exd 8 (exwd [fv]) c1) in
+  w_filters w1 = [mkflt "v" (Some 1) None] /\
+  call_matched_v regression exd 8 w1 c2 = [] /\
+  call_matched_v regression exd 8 (exwd [fv]) c2 = [((1, "v"%string), mkflt "v" (Some 2) (Some [0]))] /\
+  step_filters_of (snd (plan_call_v regression exd 8 w1 c2)) = [(1, [])] /\
+  step_filters_of (snd (plan_call_v regression exd 8 (exwd [fv]) c2)) = [(1, [mkflt "v" (Some 2) (Some [0])])] /\
+  fst (plan_call exd 8 (exwd [fv]) c1) = exwd [fv] /\
+  call_matched exd 8 (fst (plan_call exd 8 (exwd [fv]) c1)) c2 = [((1, "v"%string), mkflt "v" (Some 2) (Some [0]))] /\
+  (forall vr, In vr [ {| v_engine_deepcopy := true; v_domain_on_copy := false |};
+                      {| v_engine_deepcopy := false; v_domain_on_copy := true |} ] ->
+     fst (plan_call_v vr exd 8 (exwd [fv]) c1) = exwd [fv] /\
+     call_matched_v vr exd 8 (fst (plan_call_v vr exd 8 (exwd [fv]) c1)) c2
+       = [((1, "v"%string), mkflt "v" (Some 2) (Some [0]))]).
+Proof. exact domain_on_shared_original_refuted_l. Qed.
+Print Assumptions domain_on_shared_original_refuted.
+
+(* non-trivial instance with domains, as implemented: ONE filter object shared by five calls over three domains (v@sales,
+   v@finance, w in the default domain, the ambiguous v, both domains at once): world untouched, every step carries the
+   filter bound to ITS domain; a domain-less feature of a group with a domain; a filter feature with its own domain; the
+   Domain comparison that raises; a filter feature with another compute framework *)
+Example C07_domains_example :
+  let cs := [cl [0] true false true None; cl [1] true false true None; cl [2] true false true None;
+             cl [4] true false true None; cl [0; 1] true false true None] in
+  after world call outcome (plan_call exd 8) (exwd [fv]) cs = exwd [fv] /\
+  map (fun c => step_filters_of (snd (plan_call exd 8 (exwd [fv]) c))) cs
+    = [ [(0, [mkflt "v" (Some 1) (Some [0])])]; [(1, [mkflt "v" (Some 2) (Some [0])])]; [(2, [])]; [];
+        [(0, [mkflt "v" (Some 1) (Some [0])]); (1, [mkflt "v" (Some 2) (Some [0])])] ] /\
+  snd (plan_call exd 8 (exwd [fv]) (cl [4] true false true None)) = Failed EMulti /\
+  call_matched exd 8 (exwd [mkflt "p" None None]) (cl [3] true false true None)
+    = [((0, "p"%string), mkflt "p" (Some 1) (Some [0]))] /\
+  call_matched exd 8 (exwd [mkflt "v" (Some 1) None]) (cl [0; 1] true false true None)
+    = [((0, "v"%string), mkflt "v" (Some 1) (Some [0]))] /\
+  snd (plan_call exd 8 (exwd [mkflt "p" (Some 2) None]) (cl [3] true false true None)) = Failed EDomCmp /\
+  call_matched exd 8 (exwd [mkflt "v" None (Some [1])]) (cl [0] true false true None) = [].
+Proof. exact domains_example_l. Qed.
+
+(* Set iteration order inside one call (call field c_hz; every theorem above quantifies over it, per call): when an equal
+   feature is already stored, add_feature_to_collection searches the group's collection -- a set -- with Feature.__eq__, and
+   Domain.__eq__ raises when it meets a feature of the same name and options of which exactly one has a domain before it
+   meets the equal one.  Instance: t2 = f(x, y), x and y from a group with a domain, requested without domain, a
+   domain-less filter on x: the call ends with ValueError "Cannot compare Domain with <class 'NoneType'>" or is planned
+   (filter attached to the root step), depending on that order -- alike for shared and for fresh arguments (args_reuse),
+   and the caller's objects are untouched either way. *)
+Example C07_set_order_hazard :
+  snd (plan_call exg 8 exwg (with_hz (cl [0] true false true None) 0)) = Failed EDomCmp /\
+  step_filters_of (snd (plan_call exg 8 exwg (with_hz (cl [0] true false true None) 1)))
+    = [(1, []); (0, [mkflt "x" (Some 3) (Some [0])])] /\
+  fst (plan_call exg 8 exwg (with_hz (cl [0] true false true None) 0)) = exwg.
+Proof. exact set_order_hazard_l. Qed.
